@@ -78,7 +78,8 @@ FeExpect(st, op, cls, v) ==
     ELSE LET c == OpCode(op)
              apf2 == IF op = "set_protocol_features" THEN v ELSE st.apf
          IN IF op = "set_log_base"
-            THEN [act |-> "send", await |-> IF LogBaseForm(st, cls) = "shmfd" THEN "reply" ELSE "none"]
+            THEN [act |-> "send", await |-> IF LogBaseForm(st, cls) = "shmfd" THEN "reply"
+                                            ELSE IF st.nr /\ PF_REPLY_ACK \in apf2 THEN "ack" ELSE "none"]
             ELSE IF c \in FeHasReply THEN [act |-> "send", await |-> "reply"]
             ELSE [act |-> "send", await |-> IF st.nr /\ PF_REPLY_ACK \in apf2 THEN "ack" ELSE "none"]
 
